@@ -28,7 +28,8 @@ PROOFS = {
             # instantiation list kept, signature from instantiate_args_list / instantiate_return_type
             'InstantiatedMethod.__init__', 'InstantiatedStaticMethod.__init__', 'InstantiatedConstructor.__init__',
             'InstantiatedGlobalFunction.__init__', 'InstantiatedDeclaration.__init__', 'InstantiatedMethod.construct',
-            'InstantiatedStaticMethod.construct', 'InstantiatedConstructor.construct', 'InstantiatedClass.__init__'],
+            'InstantiatedStaticMethod.construct', 'InstantiatedConstructor.construct', 'InstantiatedClass.instantiate_parent_class',
+            'InstantiatedClass.__init__'],
     'C02': ['is_scoped_template'],      # + the qualifier view of the three instantiators (EXTRA_SETS)
     # what the signature instantiators add on top of instantiate_type (assumed frame contract) changes no existing object
     'C13': ['instantiate_args_list', 'instantiate_return_type'],
